@@ -54,7 +54,7 @@ def parseInj : String → Option Inj
   | "o" => some ⟨.failOther, true⟩
   | "n" => some ⟨.ok, false⟩
   | "on" => some ⟨.failOther, false⟩
-  | _ => none
+  | s => if s.startsWith "m" then some ⟨.ok, true⟩ else none   -- m<k>: an allocation of the parser fails; the locale calls succeed
 
 /-- caller-visible part: `h=<before>><after> pf=<before>><after> live=<delta>` -/
 def visible (s0 s1 : LState) : String :=
